@@ -1,5 +1,9 @@
 // C19 — a trip line is one-way, per line, and publishes what preceded it.
 #include "all_headers.hpp"
+// a detector and a trigger of static storage duration on the declared line, defined before the line's own definition (a
+// process-lifetime shutdown trigger): they are constructed before anything DECLARE_TRIPLINE() may define at namespace scope
+static gmlc::concurrency::TripWireDetector g_early_detector;
+static std::unique_ptr<gmlc::concurrency::TripWireTrigger> g_early_trigger(new gmlc::concurrency::TripWireTrigger());
 DECLARE_TRIPLINE()
 DECLARE_INDEXED_TRIPLINES(4096)
 #include "vrf.hpp"
@@ -195,9 +199,21 @@ int main(int argc, char** argv)
             // one process = one scenario (the declared line is a process-wide singleton)
             TriplineType other = make_tripline();
             TriplineType scratch = make_tripline();
-            scenario(R, "declared", [] { return TripWireTrigger(); }, [] { return TripWireDetector(); },
+            // in half of the processes the trigger of the scenario is the one that was built during static initialisation
+            bool early = R.rng.chance(50);
+            if (g_early_detector.isTripped()) vrf::violation("oracle:declared_line_tripped_before_any_trigger_died", "{}");
+            scenario(R, early ? "declared, trigger built during static initialisation" : "declared",
+                     [early, used = std::make_shared<bool>(false)] {
+                         if (early && !*used) {
+                             *used = true;
+                             return TripWireTrigger(std::move(*g_early_trigger));
+                         }
+                         return TripWireTrigger();
+                     }, [] { return TripWireDetector(); },
                      [other] { return TripWireDetector(other); }, [scratch] { return TripWireTrigger(scratch); },
                      [scratch] { return TripWireDetector(scratch); });
+            if (!g_early_detector.isTripped()) vrf::violation("oracle:early_detector_on_the_declared_line_not_tripped", "{}");
+            vrf::count("declared_line_static_lifetime_objects_checked");
             break;
         }
         bool indexed = (mode == "indexed" || R.rng.chance(30)) && next_index + 3 <= 4096 && vrf::cfg.only_round < 0;
